@@ -265,8 +265,13 @@ func (ab *dsAddrBook) loadRecord(id peer.ID, cache bool, update bool) (pr *addrs
 			return nil, err
 		}
 		// this record is new and local for now (not in cache), so we don't need to lock.
-		if pr.clean(ab.clock.Now()) && update {
-			err = pr.flush(ab.ds)
+		if pr.clean(ab.clock.Now()) {
+			if update {
+				err = pr.flush(ab.ds)
+			} else {
+				// as above: the copy that may be cached below differs from the stored one
+				pr.dirty = true
+			}
 		}
 	default:
 		return nil, err
